@@ -1,7 +1,7 @@
 """Which rules decide which property."""
 from __future__ import annotations
 
-from .rules import frag, c01, c02
+from .rules import frag, c01, c02, c03
 
 ASSUME = [
     'stdlib ast and re._parser front ends are correct',
@@ -40,6 +40,21 @@ PROPERTIES = {
             ('C02-R6', c02.rule_matchbase, 'quick'),
             ('C02-R7', c02.rule_nodir, 'quick'),
             ('C02-R8', c02.rule_forced_pathname, 'quick'),
+        ],
+    },
+    'C03': {
+        'explanation': 'static analysis of /repo/wcmatch: dot-guard fragment language equivalence, guard selection decision '
+                       'tables, START typestate of the parser, forced DOTMATCH on exclusion compile sites (bit-vector flag '
+                       'flow), hidden filter of the glob walker (CFG guards)',
+        'assumptions': ASSUME,
+        'rules': [
+            ('C03-R1', frag.rule_attr_fragments, 'quick'),
+            ('C03-R1', frag.rule_const_fragments, 'quick'),
+            ('C03-R1', frag.rule_handle_dot_inline, 'quick'),
+            ('C03-R2', c03.rule_guard_tables, 'quick'),
+            ('C03-R3', c03.rule_start_typestate, 'quick'),
+            ('C03-R4', c03.rule_exclusion_dotmatch, 'quick'),
+            ('C03-R5', c03.rule_walker_hidden, 'quick'),
         ],
     },
 }
